@@ -596,6 +596,21 @@ pub fn replay_file(path: &str, prop: &'static str) -> i32 {
     let text = std::fs::read_to_string(path).expect("replay file");
     let doc: serde_json::Value = serde_json::from_str(&text).expect("json");
     let rp = doc.get("replay").cloned().unwrap_or(doc.clone());
+    if rp.get("engine").and_then(|x| x.as_str()) == Some("schedmc-c01") {
+        std::panic::set_hook(Box::new(|_| {}));
+        let (_, viols) = crate::schedmc::c01::handback_drop_runs(false);
+        let _ = std::panic::take_hook();
+        for (sig, what, _) in &viols {
+            println!("  {sig}: {what}");
+        }
+        return if viols.is_empty() {
+            println!("replay holds");
+            0
+        } else {
+            println!("VIOLATION property={prop} replay={path}");
+            1
+        };
+    }
     if rp.get("engine").and_then(|x| x.as_str()) == Some("c15-builder") {
         let (_, viols) = crate::schedmc::c01::builder_pool_bound_runs();
         for (sig, what, _) in &viols {
@@ -705,6 +720,14 @@ pub fn run(args: &Args, prop: &'static str) -> i32 {
     }
     let mut run = Run::new(prop, args.tier, "model_checking");
     let err = run_into(&mut run, prop, args.tier.is_thorough());
+    if prop == "C02" {
+        // end to end with the library's own connection type: the hand-back task dropped at any scheduling point
+        let (n, viols) = crate::schedmc::c01::handback_drop_runs(args.tier.is_thorough());
+        run.cov("e2e_hand_back_task_dropped_executions", n);
+        for (sig, what, rp) in viols {
+            run.violation(sig, what, rp);
+        }
+    }
     if prop == "C15" {
         // the bound a caller configures through the public client builder is the bound in force
         let (n, viols) = crate::schedmc::c01::builder_pool_bound_runs();
